@@ -18,7 +18,7 @@ ASSUMPTIONS = [
     "reference solver oasmc/ref/ref_vlm.py (self-tested against Biot-Savart quadrature) is correct",
     "OpenMDAO, NumPy, SciPy trusted",
 ]
-BOUND = {"quick": "<=2 surfaces, nx<=3, half ny<=3 / full ny<=5", "thorough": "<=3 surfaces, nx<=4, half ny<=4 / full ny<=7"}
+BOUND = {"quick": "<=3 surfaces, nx<=3 (+ one planform with nx=4), half ny<=3 / full ny<=5", "thorough": "<=3 surfaces, nx<=4, half ny<=4 / full ny<=7"}
 TOL = 1e-9
 
 OMEGA_FULL = [0.1, -0.2, 0.3]
@@ -39,6 +39,10 @@ def surf_sets(tier):
                 continue
             for side, ny in sides:
                 out.append([dict(pf=pf, nx=nx, ny=ny, side=side, off=None)])
+    if tier == "quick":
+        # nx = 4 is the smallest mesh with an interior chordwise panel row
+        for side, ny in sides:
+            out.append([dict(pf="twdi", nx=4, ny=ny, side=side, off=None)])
     # two surfaces of different sizes (offset bookkeeping), incl. symmetric wing + full-span symmetric tail
     two = [
         [dict(pf="swept", nx=3, ny=3, side="left", off=None), dict(pf="rect", nx=2, ny=2, side="left", off=[5.0, 0.0, 0.7], span=3.0, chord=0.8)],
